@@ -234,7 +234,10 @@ def stepFw (pid : String) (d : DrvSt) (op : String) (got : String) : StepResult 
       let cands := csPrefixCands d.m.now d.m.cs i
       let pick := match psends.find? (·.isData) with
         | some ps => (cands.findIdx? (·.name == ps.name)).getD 0
-        | none => 0
+        | none =>
+          -- no Data came out: if the requester is non-local the walk may have picked a /localhost
+          -- Data that the outgoing scope rule dropped
+          if Spec.nonLocal d.m.faces f then (cands.findIdx? (fun c => isLocalhost c.name)).getD 0 else 0
       let (m, sends) := step d.m (.interest f i tie pick)
       let (labels, strs) := renderSends d.labels sends
       let lastTok := psends.foldl (fun acc ps =>
